@@ -71,7 +71,7 @@ def gen_wire_cases(rng, n, big, ops=('unpack', 'acc')):
             encs = [('valid', encode(sch, m))]
             for _ in range(2):
                 knobs = {'pad': rng.random() < 0.6, 'flip_packed': rng.random() < 0.5, 'split_packed': rng.random() < 0.5,
-                         'stale': rng.random() < 0.5, 'shuffle': rng.random() < 0.6}
+                         'stale': rng.random() < 0.5, 'shuffle': rng.random() < 0.6, 'empty_packed': rng.random() < 0.4}
                 encs.append(('knobbed', encode(sch, m, rng, knobs)))
             base = encs[rng.randrange(len(encs))][1]
             for _ in range(3):
@@ -82,6 +82,75 @@ def gen_wire_cases(rng, n, big, ops=('unpack', 'acc')):
                 stats[kind] += 1
                 for op in ops:
                     lines.append('%s %d X%s' % (op, ty, b.hex()))
+                total += 1
+    return lines, stats
+
+
+def drop_required(rng, sch, msg, depth=0):
+    """return a copy of msg in which ONE required field without default, at some depth, is made
+    absent on the wire (by marking its slot with a sentinel), or None if there is none"""
+    import copy
+    m = sch.msgs[msg['ty']]
+    cands = []
+    def walk(mm, path):
+        md = sch.msgs[mm['ty']]
+        for i, (f, s) in enumerate(zip(md.fields, mm['slots'])):
+            if f.label == L_REQ and f.dflt is None:
+                cands.append(path + [i])
+            if f.type == T_MESSAGE:
+                if s[0] == 'rep':
+                    for k, v in enumerate((s[2] or [])[:s[1]]):
+                        if v[1] is not None:
+                            walk(v[1], path + [(i, k)])
+                elif is_present(f, s) and s[2][0] == 'msg' and s[2][1] is not None:
+                    walk(s[2][1], path + [(i, None)])
+    walk(msg, [])
+    if not cands:
+        return None
+    path = rng.choice(cands)
+    new = copy.deepcopy(msg)
+    cur = new
+    for step in path[:-1]:
+        i, k = step
+        s = cur['slots'][i]
+        cur = s[2][k][1] if k is not None else s[2][1]
+    cur.setdefault('drop', set()).add(path[-1])
+    return new
+
+
+def gen_req_cases(rng, n, big):
+    lines = []
+    stats = {'schemas': 0, 'complete': 0, 'one_missing': 0, 'depth_missing': 0}
+    total = 0
+    while total < n:
+        sch = rand_schema(rng, big=big, syntax=2, allow_generic=True)
+        # bias towards required fields
+        for m in sch.msgs:
+            for f in m.fields:
+                if f.label == L_OPT and not f.oneof and rng.random() < 0.5:
+                    f.label = L_REQ
+                    if f.type == T_MESSAGE and f.sub <= sch.msgs.index(m):
+                        f.label = L_OPT
+                    f.flags &= ~F_ONEOF
+        if not any(f.label == L_REQ for m in sch.msgs for f in m.fields):
+            continue
+        lines += sch.lines()
+        stats['schemas'] += 1
+        for _ in range(rng.choice([4, 8])):
+            ty = rng.randrange(len(sch.msgs))
+            m = rand_msg(rng, sch, ty, big=False)
+            knobs = {'pad': rng.random() < 0.3, 'shuffle': rng.random() < 0.7, 'stale': rng.random() < 0.3, 'flip_packed': rng.random() < 0.3}
+            b = encode(sch, m, rng, knobs)
+            lines.append('unpack %d X%s #expect=ok' % (ty, b.hex()))
+            stats['complete'] += 1
+            total += 1
+            for _ in range(2):
+                d = drop_required(rng, sch, m)
+                if d is None:
+                    break
+                b = encode(sch, d, rng, knobs)
+                lines.append('unpack %d X%s #expect=fail' % (ty, b.hex()))
+                stats['one_missing'] += 1
                 total += 1
     return lines, stats
 
@@ -190,6 +259,8 @@ def main():
         lines, stats = gen_append_cases(rng, n)
     elif kind == 'wire':
         lines, stats = gen_wire_cases(rng, n, big)
+    elif kind == 'req':
+        lines, stats = gen_req_cases(rng, n, big)
     else:
         raise SystemExit('unknown kind')
     open(out, 'w').write('\n'.join(lines) + '\n')
